@@ -112,11 +112,41 @@ def _lockish(t: str) -> bool:
     return base in _LOCK_NAMES or base.endswith(("_lock", "_locks", "_condition", "Lock()"))
 
 
+def _held_helpers(bb) -> dict:
+    """Private methods of the budget class that only ever run with the condition held: every mention of `self.<m>` in the class -
+    a call, or the method handed to wait_for as its predicate - sits lexically under `with self._condition` (a lambda counts at its
+    creation site), or inside another such helper. name -> FuncInfo."""
+    cand = {n: f for n, f in bb.methods.items() if n.startswith("_") and not n.startswith("__")}
+    mentions: dict[str, list] = {n: [] for n in cand}
+    for f in bb.methods.values():
+        for g in [f] + f.lambdas + list(f.nested.values()):
+            for x in own_nodes(g.node):
+                if isinstance(x, ast.Attribute) and x.attr in cand and norm(x.value) == "self":
+                    held = _with_ctx(x if g is f else g.node, f.node)
+                    mentions[x.attr].append((f.name, "self._condition" in held))
+    held_set: set[str] = set()
+    for _ in range(3):
+        for n, ms in mentions.items():
+            if ms and all(ok or host in held_set for host, ok in ms):
+                held_set.add(n)
+    return {n: cand[n] for n in held_set}
+
+
 def rule_r1_r2(ctx):
     bb = ctx.repo.cls(f"{ED}:_ByteBudget")
     n_acc = 0
+    helpers = _held_helpers(bb)
+    live = {g.key for g in ctx.repo.live(bb.methods.values())}
     for f in bb.methods.values():
-        if f.name == "__init__":
+        if f.name == "__init__" or f.key not in live:
+            continue  # (a private helper all of whose calls were expanded is examined inside its callers)
+        if f.name in helpers:
+            # runs with the condition held wherever it is used (checked at its mentions); its accesses count as guarded
+            for n in own_nodes(f.node):
+                if isinstance(n, ast.Attribute) and n.attr in GUARDED and norm(n.value) == "self":
+                    n_acc += 1
+                    ctx.ob("R1", f"{f.local}: {'write' if isinstance(n.ctx, ast.Store) else 'read'} of self.{n.attr} in a helper that is only used with the condition held", True,
+                           how="every mention of the helper is under `with self._condition`")
             continue
         # include lambdas nested in the method
         scopes = [f] + f.lambdas + list(f.nested.values())
@@ -147,6 +177,11 @@ def rule_r1_r2(ctx):
                 for c in waits:
                     pred = c.args[0] if c.args else None
                     mentions = pred is not None and any(isinstance(x, ast.Attribute) and x.attr == w.field for x in ast.walk(pred))
+                    if pred is not None and not mentions:
+                        # a predicate that is (or calls) a method of the class reads what that method reads
+                        for x in ast.walk(pred):
+                            if isinstance(x, ast.Attribute) and norm(x.value) == "self" and x.attr in bb.methods:
+                                mentions = mentions or any(isinstance(y, ast.Attribute) and y.attr == w.field for y in ast.walk(bb.methods[x.attr].node))
                     cn = cfg.nodes_containing(c)[0]
                     if mentions and cfg.dominates(cn, wn):
                         ok = True
@@ -557,7 +592,11 @@ def rule_r7(ctx):
                     n_ok = shut(t.orelse) or shut(t.finalbody)
                     # the executor is created immediately before the try (nothing can raise in between)
                     blk = getattr(p, "_parent", None)
-                    adj = hasattr(blk, "body") and p in blk.body and blk.body.index(p) + 1 < len(blk.body) and blk.body[blk.body.index(p) + 1] is t
+                    nxt = blk.body[blk.body.index(p) + 1] if hasattr(blk, "body") and p in blk.body and blk.body.index(p) + 1 < len(blk.body) else None
+                    # … or the try that follows begins with it (an outer try/finally that only adds further cleanup)
+                    while isinstance(nxt, ast.Try) and nxt is not t and nxt.body and isinstance(nxt.body[0], ast.Try):
+                        nxt = nxt.body[0]
+                    adj = nxt is t
                     if (h_ok and n_ok or shut(t.finalbody)) and adj:
                         ok = True
             ctx.check("R7", f"{f.local}: {var} shut down with wait=True on normal and exceptional exits", ok, f, c,
